@@ -948,6 +948,10 @@ impl World for BoxWorld {
                     } else {
                         draw_len(rng, 4096)
                     }
+                } else if rng.chance(1, 16) {
+                    // the empty message: no body for a flip to land in, so only the tag,
+                    // nonce and key faults can expose a MAC check skipped for it (C02-r8-1)
+                    0
                 } else {
                     rng.usize_below(81)
                 };
